@@ -268,7 +268,7 @@ CHECKS = [
           " Also: a peer silent from the first moment of a connection, keepalive after a reconnect, a peer slow to read for two seconds; healthy-link verdicts are conclusive only if a lag probe and the proxy's frame log show a responsive environment. Fourth round: a redial that completes shortly before the idle timer armed at the loss is due (F36; schedule gated by the lag probe).",
   "design_ref": "DESIGN.md §6 C17",
   "note": TB + " PARTIAL: G and E are environment assumptions; wall-clock behaviour is sampled by the scenarios, not proved.",
-  "technique": "Lean 4 theorems (two invariants by induction over timed events) + regenerated skeleton facts + timed hook-trace acceptance + scenario monitors"},
+  "technique": "Lean 4 theorems + translation theorems over the regenerated MiniGo programs (Deadline) (two invariants by induction over timed events) + regenerated skeleton facts + timed hook-trace acceptance + scenario monitors"},
 ]
 
 _PENDING = "check under construction in this round (see DESIGN.md §13 build order); not claimed until its theorem file, tie and unchanged-tree sweep exist"
